@@ -47,6 +47,29 @@ var words = []string{"alpha", "bravo", "charlie", "delta", "echo", "fox", "golf"
 func Value(r *kit.Rng, s *schema.Node, o GenOpts) string {
 	switch s.Type {
 	case "string":
+		if o.Nasty && r.Chance(1, 4) {
+			// a run of runes drawn from every class the escaper distinguishes:
+			// each C0 control, DEL, quote, backslash, slash, <>&, U+2028/9, BMP, astral
+			n := r.Range(1, 6)
+			var b []rune
+			for i := 0; i < n; i++ {
+				switch r.Intn(8) {
+				case 0, 1, 2:
+					b = append(b, rune(r.Intn(0x20)))
+				case 3:
+					b = append(b, []rune{0x7f, '"', '\\', '/', '<', '>', '&', '\''}[r.Intn(8)])
+				case 4:
+					b = append(b, []rune{0x2028, 0x2029, 0x85, 0xa0, 0xfffd, 0xfeff}[r.Intn(6)])
+				case 5:
+					b = append(b, rune(0x100+r.Intn(0x2000)))
+				case 6:
+					b = append(b, rune(0x1f600+r.Intn(64)))
+				default:
+					b = append(b, rune('a'+r.Intn(26)))
+				}
+			}
+			return string(b)
+		}
 		if o.Nasty && r.Chance(1, 2) {
 			if r.Chance(1, 10) {
 				return strings.Repeat(NastyStrings[r.Intn(len(NastyStrings))]+"x", r.Range(10, 400))
